@@ -106,6 +106,7 @@ class Repo:
         self.overlay = overlay or {}
         self.modules: Dict[str, Module] = {}
         self._load()
+        self._argform()
         self._index()
         self._link()
 
@@ -139,6 +140,11 @@ class Repo:
                 if is_pkg:
                     modrel = modrel[: -len(".__init__")]
                 self.modules[modrel] = Module(modrel, path, rel, src, tree, is_pkg)
+
+    def _argform(self):
+        if not os.environ.get("VERIF_NO_CANON"):
+            from .canon import argument_form
+            self.canon_rewrites = getattr(self, "canon_rewrites", 0) + argument_form([m.tree for m in self.modules.values()])
 
     def digest(self) -> str:
         h = hashlib.sha256()
